@@ -230,6 +230,10 @@ mut("R-C10-search-task-request-stop-stores-true", "C10", "stop-arm",
     ("src/uci.rs", "            .store(false, std::sync::atomic::Ordering::Relaxed);", "            .store(true, std::sync::atomic::Ordering::Relaxed);"), base=R + "R10-refactor2.diff")
 mut("R-C15-handle-line-continues-on-quit", "C15", "io-exits",
     ("src/uci.rs", "            return ControlFlow::Break(());", "            return ControlFlow::Continue(());"), base=R + "R10-refactor2.diff")
+# ---- "must exist" clauses found by the deletion sweep (tools/deletion_sweep.py): each deletion passes the suite
+mut("C11-quiescence-alpha-never-raised", "C11", "alpha-is-raised", (S, "            if score > alpha {\n                alpha = score;\n            }\n        }\n\n        alpha\n", "        }\n\n        alpha\n"))
+mut("C11-get-filtered-moves-keeps-everything", "C11", "retains-by-the-predicate", (B, "        moves.retain(predicate);\n", ""))
+mut("C09-root-does-not-count-nodes", "C09", "counts-its-nodes", (S, "            self.info.nodes += 1;\n", ""))
 # ---- the plain generators and the bit iteration underneath them
 mut("C01-knight-cannot-capture", "C01", "generators:Knight", ("src/board/piece/knight.rs", "        let move_mask = Self::get_attacks(square) & !same_pieces;", "        let move_mask = Self::get_attacks(square) & !board.bitboards.all_pieces;"))
 mut("C01-bishop-black-own-is-white", "C01", "generators:Bishop:Black", ("src/board/piece/bishop.rs", "            Color::Black => board.bitboards.black_pieces,", "            Color::Black => board.bitboards.white_pieces,"))
